@@ -8,6 +8,7 @@ import (
 	"net"
 	"strings"
 	"sync"
+	"sync/atomic"
 	"time"
 
 	"nhooyr.io/websocket"
@@ -41,6 +42,15 @@ func init() {
 		Exhaustive:  func(t string) bool { return false },
 		Gen:         c06Gen,
 		CaseTimeout: 300 * time.Second,
+		ChildSetup: func() {
+			installPointHooks(false)
+			// widen the window between a reader deciding to close the connection and the close itself
+			pointSink.Store(func(c *websocket.Conn, name string) {
+				if name == "handleControl.preclose" && c06Delay.Load() {
+					time.Sleep(300 * time.Microsecond)
+				}
+			})
+		},
 		Require: func(tier string) map[string]int64 {
 			return map[string]int64{"local_closes_checked": 2000, "peer_closes_checked": 1000, "unsendable_refused": 300, "post_close_calls_checked": 500, "close_order_sequences": 50}
 		},
@@ -122,6 +132,12 @@ func c06Gen(tier string, seed int64) []fw.Case {
 		// (C) library <-> library
 		for _, place := range []string{"read-pending", "read-later", "between-messages"} {
 			add(c06Desc{Kind: "libpair", Role: role, Codes: append([]int{1005}, c06RepCodes...), Reasons: []int{0, 9, 123}, Place: place}, fmt.Sprintf("libpair/%s-closes/%s", role, place))
+		}
+		// (A') local Close while a reader is active and the peer drops the transport right after its echo
+		for _, rd := range []string{"CloseRead", "Read", "none"} {
+			for _, drop := range []string{"peer-closes-transport-after-echo", "peer-keeps-transport"} {
+				add(c06Desc{Kind: "local-active-reader", Role: role, Place: rd, Closer: drop}, fmt.Sprintf("local-active-reader/%s/%s/%s", role, rd, drop))
+			}
 		}
 		// (D) after closed
 		for _, closer := range []string{"Close", "CloseNow", "peer-close", "protocol-error", "context-expiry", "transport-eof"} {
@@ -228,6 +244,10 @@ func c06Run(r *fw.R, d c06Desc) {
 				}
 				c06LibPair(r, d, code, rl)
 			}
+		}
+	case "local-active-reader":
+		for i := 0; i < 40 && !r.Failed(); i++ {
+			c06LocalActiveReader(r, d, i)
 		}
 	case "after-closed":
 		c06AfterClosed(r, d)
@@ -550,6 +570,59 @@ func c06LibPair(r *fw.R, d c06Desc, code, rl int) {
 }
 
 var errLost = errors.New("lost")
+
+var c06Delay atomic.Bool
+
+// (A') Close with a reader goroutine active on the same connection. The peer
+// echoes the code; Close must return nil whichever goroutine reads the echo.
+func c06LocalActiveReader(r *fw.R, d c06Desc, iter int) {
+	c, _, peerEnd, err := libConn(d.Role, wire.Params{}, 0, xport.Plan{}, xport.Plan{})
+	if err != nil {
+		r.Violate("C06/attach-failed", err.Error(), "")
+		return
+	}
+	defer c.CloseNow()
+	defer peerEnd.Close()
+	peer := newRawPeer(peerEnd, d.Role, wire.Params{}, d.Seed+uint64(iter))
+	peer.AutoPong = true
+	drop := d.Closer == "peer-closes-transport-after-echo"
+	peer.OnFrame = func(f wire.Frame) {
+		if f.Op == wire.OpClose {
+			peer.Send(wire.Close(f.Payload))
+			if drop {
+				peerEnd.Close()
+			}
+		}
+	}
+	peer.Start()
+	ctx, cancel := context.WithTimeout(context.Background(), 30*time.Second)
+	defer cancel()
+	switch d.Place {
+	case "CloseRead":
+		c.CloseRead(ctx)
+	case "Read":
+		go func() {
+			for {
+				if _, _, err := c.Read(ctx); err != nil {
+					return
+				}
+			}
+		}()
+	}
+	if iter%2 == 0 {
+		// let the reader block first
+		time.Sleep(100 * time.Microsecond)
+	}
+	c06Delay.Store(true)
+	defer c06Delay.Store(false)
+	code := c06RepCodes[iter%len(c06RepCodes)]
+	cerr := c.Close(websocket.StatusCode(code), "bye")
+	r.Key("local-active-reader/%s/reader=%s/%s", d.Role, d.Place, d.Closer)
+	r.Count("local_closes_checked", 1)
+	if cerr != nil {
+		r.Violate("C06/close-returned-error/active-reader-"+d.Place, fmt.Sprintf("%s Close(%d) with reader %s active, %s: the peer echoed the code but Close returned: %v", d.Role, code, d.Place, d.Closer, cerr), "")
+	}
+}
 
 func attachClient(ctx context.Context, t io.ReadWriteCloser) (*websocket.Conn, error) {
 	return attachClientP(ctx, t, wire.Params{}, 0)
